@@ -547,6 +547,29 @@ def gen_program(rng, cfg, stats=None):
     return 'a = b\n'
 
 
+MB_PREFIXES = ['é; ', 'λ;', '"ü" ;  ', 'д = 1; ', "'🎉'; ", 'ä;\t']
+
+
+def mb_prefix(rng, src, p=0.5):
+    """Put a small statement made of multi-byte characters and a ';' in front of some simple statements (so that what
+    follows on the line has byte columns != character columns and does not start at the line's indentation)."""
+    tree = try_parse(src)
+    if tree is None:
+        return src
+    lines = src.split('\n')
+    spots = []
+    for n in ast.walk(tree):
+        if isinstance(n, ast.stmt) and not hasattr(n, 'body') and not isinstance(n, ast.Match):
+            ln = lines[n.lineno - 1]
+            col = len(ln.encode()[:n.col_offset].decode())
+            if ln[:col].strip() == '' and rng.random() < p:
+                spots.append((n.lineno - 1, col))
+    for li, col in sorted(set(spots), reverse=True):
+        lines[li] = lines[li][:col] + rng.choice(MB_PREFIXES) + lines[li][col:]
+    new = '\n'.join(lines)
+    return new if try_parse(new) is not None and try_toks(new) else src
+
+
 def relayout(rng, src, n=8, kinds=None):
     """Layout twin: same structure, different layout."""
     want = sdump(src)
